@@ -593,7 +593,7 @@ def gen_block(rng):
                         [35, 15, 15, 17, 6, 6, 6])[0]
     case = {'kind': 'block', 'block': block, 'lines': gen_lines(rng),
             'form': rng.choice(['list', 'list', 'string', 'pieces']),
-            'how': rng.choice(['ctor', 'ctor', 'setter', 'setter-bad'])}
+            'how': rng.choice(['ctor', 'ctor', 'setter', 'setter-bad', 'inplace'])}
     if block == 'namespace':
         case['ids'] = [rng.choice(NS_IDS) for _ in range(rng.choice([0, 1, 1, 2, 2, 3, 4]))]
         case['ids_via'] = rng.choice(['list', 'NamespaceIds', 'dot', 'colons'])
@@ -652,7 +652,20 @@ def check_block(case):
                     G.Namespace(nsi)
             else:
                 obj = (G.Struct if block == 'struct' else G.Class)(case['name'], first)
-            if how == 'setter':
+            if how == 'inplace':
+                # no initial contents; filled through the getter - and nobody else may see it
+                obj = G.Namespace(nsi) if block == 'namespace' else \
+                    (G.Struct if block == 'struct' else G.Class)(case['name'])
+                for line in lines:
+                    obj.contents.append(line)
+                bump('contents_filled_in_place')
+                for cls_name, fresh in (('namespace', G.Namespace(ns_ids_t(['Other']))),
+                                        ('struct', G.Struct('Other')), ('class', G.Class('Other'))):
+                    if fresh.contents.lines:
+                        out('fresh-block-shares-contents-with-another',
+                            {'fresh': cls_name, 'leaked': fresh.contents.lines[:5]})
+                        break
+            elif how == 'setter':
                 obj.contents = build_tb(lines, case['form'])
                 bump('contents_replaced_by_setter')
             elif how == 'setter-bad':
